@@ -365,6 +365,25 @@ def sorted_before_use(mod, fnode, par, node):
     return ("later", None, None) if anywhere else None
 
 
+LOG_METHODS = {"debug", "info", "warning", "warn", "error", "exception", "critical", "log"}
+
+
+def _in_message(par, n):
+    """The expression is (part of) the message of a logger call, a raised exception or an assert: PY-LOG, not part of any result."""
+    cur = n
+    for _ in range(12):
+        cur = par.get(id(cur))
+        if cur is None or isinstance(cur, (ast.FunctionDef, ast.AsyncFunctionDef, ast.Lambda)):
+            return False
+        if isinstance(cur, (ast.Raise, ast.Assert)):
+            return True
+        if isinstance(cur, ast.Call) and isinstance(cur.func, ast.Attribute) and cur.func.attr in LOG_METHODS:
+            return True
+        if isinstance(cur, ast.stmt):
+            return False
+    return False
+
+
 def order_sites(mod, q, fnode, summ=None, keyed_out=None):
     """Order-exposing uses of unordered values: [(node, description, definite)].
     `keyed_out` (list) receives one record per sorted/min/max/.sort over an unordered value: (node, status, text, key)."""
@@ -415,6 +434,11 @@ def order_sites(mod, q, fnode, summ=None, keyed_out=None):
                 add(n, f"{f.id}(<set>)")
             if isinstance(f, ast.Attribute) and f.attr == "join" and n.args and is_u(n.args[0], known):
                 out.append((n, "str.join(<set>)", True))
+            if isinstance(f, ast.Name) and f.id in ("str", "repr", "format", "ascii") and n.args and is_u(n.args[0], known) and not _in_message(par, n):
+                out.append((n, f"{f.id}(<set>): the text lists the elements in iteration order", True))
+            if isinstance(f, ast.Attribute) and f.attr == "format" and isinstance(f.value, (ast.Constant, ast.JoinedStr)) and not _in_message(par, n) \
+                    and any(is_u(a_, known) for a_ in list(n.args) + [k_.value for k_ in n.keywords]):
+                out.append((n, "str.format(<set>): the text lists the elements in iteration order", True))
             if isinstance(f, ast.Attribute) and f.attr == "pop" and is_u(f.value, known) and not n.args:
                 out.append((n, "<set>.pop()", True))
             if isinstance(f, ast.Attribute) and f.attr == "extend" and n.args and is_u(n.args[0], known):
@@ -441,6 +465,12 @@ def order_sites(mod, q, fnode, summ=None, keyed_out=None):
                 out.append((n, "for-loop over <set> whose body is not recognised as order-independent" + (f" ({cb})" if cb else ""), False))
         elif isinstance(n, ast.Starred) and is_u(n.value, known):
             out.append((n, "*<set>", True))
+        elif (isinstance(n, ast.FormattedValue) and is_u(n.value, known)) or \
+                (isinstance(n, ast.BinOp) and isinstance(n.op, ast.Mod) and isinstance(n.left, (ast.Constant, ast.JoinedStr)) and
+                 (is_u(n.right, known) or (isinstance(n.right, ast.Tuple) and any(is_u(x, known) for x in n.right.elts)))):
+            # the text of a set lists its elements in iteration order (messages of loggers / exceptions are not part of a result)
+            if not _in_message(par, n):
+                out.append((n, "text of a <set> (f-string / % formatting)", True))
         elif isinstance(n, (ast.Assign,)) and isinstance(n.value, ast.Name) is False and isinstance(n.targets[0], (ast.Tuple, ast.List)) and is_u(n.value, known):
             out.append((n, "tuple unpacking of <set>", True))
     # comprehension directly inside an order-insensitive consumer is fine: sorted(x for x in s), any(...), set(...)
